@@ -151,6 +151,28 @@ class Normaliser:
                 return False
         return True
 
+    def _poly_positive(self, d):
+        """sufficient syntactic test for d > 0: all coefficients positive and every generator that occurs to an odd power
+        is a positive-declared variable or a square-root atom"""
+        if d == 0:
+            return False
+        if not hasattr(self, "_posgens"):
+            pos = set()
+            for t in self.nodes:
+                nm = self.gen_of.get(t.id)
+                if nm is None:
+                    continue
+                if (t.op == "var" and t.id in T._POS) or (t.op == "sqrt" and T.is_positive(t)):
+                    pos.add(self.idx[nm])
+            self._posgens = pos
+        for mon, coef in d.terms():
+            if coef <= 0:
+                return False
+            for i, e in enumerate(mon):
+                if e % 2 and i not in self._posgens:
+                    return False
+        return True
+
     # -- indicators
     def ind(self, var, val):
         k = (var, val)
@@ -325,8 +347,13 @@ class Normaliser:
                     self.rel[i] = n
                     self.rel_order.insert(0, i)
                     self.nf[t.id] = (g, R_.one)
+                elif self._poly_positive(d):
+                    # sqrt(n/d) = sqrt(n d)/d for d > 0 : the atom stands for sqrt(n d)
+                    self.rel[i] = self.red(n * d)
+                    self.rel_order.insert(0, i)
+                    self.nf[t.id] = (g, d)
                 else:
-                    raise NormFail("sqrt of a rational function with non-constant denominator")
+                    raise NormFail("sqrt of a rational function whose denominator is not syntactically positive")
                 return
             if op == "avar":
                 n, d = self._pair(t.args[1])
